@@ -617,6 +617,47 @@ fn gen_graph(r: &mut Rng, fam: i64, seed: u64, k: usize) -> Value {
                 trains.rotate_left(k);
             }
         }
+        3 => {
+            // two branches that take nearly the same time: one short and slow from its first metre on, the other long and
+            // fast - the branch whose first event after the split comes later is not the one that needs the split earlier
+            name = "race";
+            let first = nb.add(r.range(80, 120) * 100, 20);
+            let (vs, vf) = (*r.pick(&[6i64, 8, 10]), *r.pick(&[20i64, 25]));
+            let ls = r.range(20, 40) * 100;
+            // running time over the slow branch: its length (plus the train's own length when the restriction is a
+            // tail-end one) at the restricted speed, plus braking into it / accelerating out of it; the fast branch is
+            // sized to take that long give or take a few minutes
+            let lf = ((ls / vs + r.range(-150, 350)) * vf).max(1500);
+            let main = r.range(90, 140) * 100;
+            let m = if r.chance(2, 3) {
+                nb.siding(first, ls, lf, 150, vs, vf, false, main, 20)
+            } else {
+                nb.siding(first, lf, ls, 150, vf, vs, false, main, 20)
+            };
+            for i in 0..r.range(1, 2) {
+                trains.push(json!({"orig":[first],"dest":[m],"depart":120 + i * *r.pick(&[240i64, 600]),
+                                   "ncars":*r.pick(&cars),"vmax":*r.pick(&[25i64, 30])}));
+            }
+            if r.chance(1, 3) {
+                trains.push(json!({"orig":[nb.flip(m)],"dest":[nb.flip(first)],"depart":120 + 60 * r.range(0, 20),"ncars":*r.pick(&cars),"vmax":25}));
+            }
+        }
+        4 => {
+            // a split directly behind a long link: primary branch short and restricted to 8 m/s, alternate branch long and
+            // unrestricted, a run of plain links behind the join; the alternate's length sweeps the range in which the two
+            // branches take about the same time for a long train
+            name = "racesweep";
+            let first = nb.add(8000, 40);
+            let slow = nb.ext(first, 3000, 8);
+            let fast = nb.ext(first, 9000 + 250 * (k as i64 % 48), 40);
+            let mut m = nb.ext(slow, 3000, 40);
+            nb.connect(fast, m);
+            for _ in 0..3 {
+                m = nb.ext(m, 3000, 40);
+            }
+            m = nb.ext(m, 25000, 40);
+            trains.push(json!({"orig":[first],"dest":[m],"depart":*r.pick(&[120i64, 5000]),"ncars":*r.pick(&[80i64, 100]),"vmax":*r.pick(&[25i64, 30])}));
+        }
         _ => {
             name = "convoy";
             let ks = *r.pick(&[2i64, 2, 3]);
@@ -652,9 +693,11 @@ fn gen(seed: u64, n: usize, tier: &str) -> Vec<Value> {
     let maxtr = if tier == "quick" { 5 } else { 7 };
     for k in 0..n {
         let mut r = Rng::new(seed.wrapping_mul(7_000_003).wrapping_add(k as u64));
-        // nine scenarios in twenty are composite networks (fixed quotas per block of twenty: 2 yard lead, 5 converging
-        // junction + crossing, 2 convoy)
-        let fam = match k % 20 { 0 | 1 => 0, 2..=6 => 1, 7 | 8 => 2, _ => -1 };
+        // eleven scenarios in twenty are composite networks (fixed quotas per block of twenty: 2 yard lead, 5 converging
+        // junction + crossing, 2 convoy, 2 racing branches)
+        let fam = match k % 20 { 0 | 1 => 0, 2..=6 => 1, 7 | 8 => 2, 9 | 10 => 3, _ => -1 };
+        // AVH_ONLY_FAM=<n>: every generated scenario from one composite family (mutation trials of that family)
+        let fam = std::env::var("AVH_ONLY_FAM").ok().and_then(|x| x.parse::<i64>().ok()).unwrap_or(fam);
         if fam >= 0 {
             out.push(gen_graph(&mut r, fam, seed, k));
             continue;
